@@ -17,6 +17,7 @@ class DevProp:
     monitor_name = ""
     correspondence_name = ""
     known_signature = None  # function(case, result) -> known finding id or None
+    stream = True           # second stage: the cases again in production configuration (lib/devrun.run_stream), flat stream compared
     soak = False            # thorough tier: additional high-volume search with the extracted monitors (lib/soak.py); needs soak_case(rng)
 
     def emit(self, case, res):
@@ -177,12 +178,85 @@ class DevProp:
             "correspondence_obligations": 2,
         })
         self.extra_coverage(run_, cases, results, m)
+        if self.stream and (not run_.violations or all(v["no_input"] for v in run_.violations)):
+            self.stream_stage(run_, binary, cases, results, replaying)
         if not run_.violations and not replaying and hasattr(self, "perturb"):
             self.self_test(run_, cases, results)
         n_soak = int(os.environ.get("VERIF_SOAK", "50000"))
         if self.soak and run_.tier == "thorough" and not run_.violations and not replaying and n_soak > 0:
             import soak
             soak.run_soak(self, run_, n_cases=n_soak, seed=run_.seed, binary=binary)
+
+    def stream_stage(self, run_, binary, cases, results, replaying):
+        """The cases once more, the way production runs a device: output channel of capacity 8, events back to back, a consumer that
+        is slower than the device and reads a message's bytes only after 17 further messages were taken (forwarder + driver channel).
+        The flat stream that consumer sees must be the concatenation of the stepped run's per-step outputs and clean-up (the
+        observations the Coq monitor/view of this property have just checked): the theorems speak about every schedule only if the
+        output does not depend on the schedule."""
+        cap = 2500 if run_.tier == "quick" else 12000
+        idx = [i for i, r in enumerate(results) if not (r.get("panic") or r.get("hang") or r.get("rejected"))
+               and not any(e.get("t") == "m" for e in cases[i]["events"])]
+        if len(idx) > cap:
+            stride = len(idx) / float(cap)
+            idx = sorted({idx[int(j * stride)] for j in range(cap)})
+        if not idx:
+            return
+        sub = [cases[i] for i in idx]
+        sres, err = devrun.run_stream(binary, sub)
+        if sres is None:
+            run_.violation("device harness (stream mode) failed: " + err,
+                           {"theorem_or_correspondence": "stream view (harness run)", "error": err}, no_input=True)
+            return
+        bad = []
+        n_msgs = 0
+        for j, i in enumerate(idx):
+            want = [m for st in results[i]["steps"] for m in st["midi"]] + list(results[i]["cleanup"])
+            wsigs = sum(st["sigs"] for st in results[i]["steps"])
+            r = sres[j]
+            n_msgs += len(r["stream"])
+            if r.get("panic") or r.get("hang"):
+                bad.append((i, j, "crash"))
+            else:
+                # the clean-up walks a Go map: its order is unspecified (the views compare it as a multiset too)
+                n = len(want) - len(results[i]["cleanup"])
+                got = r["stream"]
+                if got[:n] != want[:n] or sorted(got[n:]) != sorted(want[n:]) or r["sigs"] != wsigs:
+                    bad.append((i, j, "differs"))
+        prev = run_.coverage.get("stream_stage", {})
+        run_.coverage["stream_stage"] = {
+            "cases": len(idx) + prev.get("cases", 0), "messages": n_msgs + prev.get("messages", 0), "differing": len(bad) + prev.get("differing", 0),
+            "configuration": "output channel capacity 8 (cmd/hidi/main.go), events back to back, consumer 4 us/message with 1 ms stalls, "
+                             "bytes read after 17 further messages; compared with the concatenated per-step output of the stepped run"}
+        run_.coverage["correspondence_obligations"] = run_.coverage.get("correspondence_obligations", 2) + 1
+        if not bad:
+            return
+        # prefer a case whose receiver-side trajectory differs (a concrete failing history), and the shortest of those
+        def concrete(i, j):
+            want = [m for st in results[i]["steps"] for m in st["midi"]] + list(results[i]["cleanup"])
+            return devrun.receiver_trajectory(want) != devrun.receiver_trajectory(sres[j]["stream"])
+        ranked = sorted(bad, key=lambda b: (b[2] != "crash" and not concrete(b[0], b[1]), len(cases[b[0]]["events"])))
+        i, j, kind = ranked[0]
+        want = [m for st in results[i]["steps"] for m in st["midi"]] + list(results[i]["cleanup"])
+        got = sres[j]["stream"]
+        k = 0
+        while k < min(len(want), len(got)) and want[k] == got[k]:
+            k += 1
+        is_concrete = kind == "crash" or concrete(i, j)
+        if not is_concrete and run_.violations:
+            return
+        if is_concrete:
+            run_.violations = [v for v in run_.violations if not v["no_input"]]
+        case = {kk: v for kk, v in cases[i].items() if kk != "tag"}
+        what = ("production configuration (8-slot output channel, back-to-back events, lagging consumer): " + (
+            "the device %s (event %s): %s" % ("hung" if sres[j].get("hang") else "panicked", sres[j].get("panic_at"), sres[j].get("panic"))
+            if kind == "crash" else
+            "the message stream at the receiver differs from the stepped run of the same %d-event history at message %d of %d/%d (%s vs %s); "
+            "%d of %d cases differ%s" % (len(case["events"]), k, len(got), len(want), got[k:k + 2], want[k:k + 2], len(bad), len(idx),
+                                        "" if is_concrete else "; the receiver-side trajectories (sounding notes, controllers) agree")))
+        run_.violation(what, {"kind": "device-history-stream", "case": case, "stream_observed": got[:600], "stream_expected": want[:600],
+                              "first_difference": k, "signals_observed": sres[j]["sigs"],
+                              "theorem_or_correspondence": None if is_concrete else "stream view (flat stream under production scheduling = stepped run)"},
+                       no_input=not is_concrete)
 
     def self_test(self, run_, cases, results, want=6):
         """Sensitivity self-test of the pipeline (emitters + Coq monitor/view): a deliberately falsified observation of the
